@@ -49,11 +49,13 @@ CLAIM = dict(
     "update_params, Anderson reset/columns, linear_solve set-up vs re-use incl. the initial Darcy and final pressure solves) and its event "
     "trace is compared token by token with the model's record; plus equal/unequal predictions on all generated sequences, "
     "and the model's rational results of every Jacobi / MG / H1 call against the implementation's floats (exact where all diagonals are "
-    "powers of two, within 1e-12 otherwise; split-Bregman, Anderson and distance arithmetic are NOT modelled - records only). The deciding "
+    "powers of two, within 1e-12 otherwise); split-Bregman (anisotropic, no tolerance, no adaptivity: right-hand side, solver call, shrinkage) is "
+    "evaluated and tied the same way; Anderson arithmetic: theorem `anderson_run_result_stateless` on builder c's model (least-squares solve a "
+    "parameter), tied there (C04); distance arithmetic is NOT modelled - records only. The deciding "
     "observation is bit-for-bit equality with fresh processes over all sequences of the tier.",
     note="Arithmetic of numpy/scipy/numba/pyamg is outside the model; determinism of those libraries across processes is assumed "
-    "(and observed: zero mismatches on the fixed tree). tvd's skimage methods are covered by the oracle only. All solver objects use tol=None "
-    "(the tolerance branches of Jacobi and MG are not exercised); reduced matrices, amg_residual_history and the distance object's own Anderson "
+    "(and observed: zero mismatches on the fixed tree). tvd's skimage methods are covered by the oracle only. One Jacobi object has a tolerance (its branch is modelled and "
+    "tied numerically); MG's tolerance branch is not exercised; reduced matrices, amg_residual_history and the distance object's own Anderson "
     "acceleration are not in the model (oracle only).",
     technique="Lean 4 proof (cache-forgetting normal form commutes with every operation; induction over histories) + "
     "differential correspondence + fresh-process oracle",
@@ -77,7 +79,7 @@ def coef_array(k):
 
 OBJECTS = {
     "jacs": [dict(maxiter=3, tol=None, dim=2, mass=1.0, diff=1.0), dict(maxiter=2, tol=None, dim=2, mass=2.0, diff=0.5),
-             dict(maxiter=3, tol=None, dim=2, mass=4.0, diff=1.0)],
+             dict(maxiter=3, tol=None, dim=2, mass=4.0, diff=1.0), dict(maxiter=8, tol=0.0625, dim=2, mass=1.0, diff=0.5)],
     "mgs": [dict(depth=1, sm=2, maxiter=2, dim=2, mass=1.0, diff=1.0), dict(depth=1, sm=2, maxiter=1, dim=2, mass="a0", diff=1.0),
             dict(depth=1, sm=2, maxiter=2, dim=2, mass=0.0, diff=2.0)],
     "aas": [dict(depth=2, restart=3), dict(depth=3, restart=None)],
@@ -342,7 +344,7 @@ def run_chunk(seqs):
         row = []
         for op in seq:
             r = execute(d, objs, op)
-            vals = np.asarray(r, dtype=float).ravel().tolist() if op["op"] in ("jc", "mc", "h1") and isinstance(r, np.ndarray) else None
+            vals = np.asarray(r, dtype=float).ravel().tolist() if op["op"] in ("jc", "mc", "h1", "sb", "tvd") and in_model(op) and isinstance(r, np.ndarray) else None
             row.append((digest(r), vals, take_trace(op)))
         out.append(row)
     return out
@@ -392,7 +394,7 @@ def opt(x):
 
 
 def objects_line():
-    js = " ".join(f"{o['maxiter']} {opt(o['tol'])} {o['dim']} {coef_tok(o['mass'])} {coef_tok(o['diff'])}" for o in OBJECTS["jacs"])
+    js = " ".join(f"{o['maxiter']} {'none' if o['tol'] is None else fr(o['tol'])} {o['dim']} {coef_tok(o['mass'])} {coef_tok(o['diff'])}" for o in OBJECTS["jacs"])
     ms = " ".join(f"{o['depth']} {o['sm']} {o['maxiter']} {o['dim']} {coef_tok(o['mass'])} {coef_tok(o['diff'])}" for o in OBJECTS["mgs"])
     aas = " ".join(f"{o['depth']} {opt(o['restart'])}" for o in OBJECTS["aas"])
     return f"J {len(OBJECTS['jacs'])} {js} M {len(OBJECTS['mgs'])} {ms} A {len(OBJECTS['aas'])} {aas} W {len(OBJECTS['ws'])}"
@@ -413,7 +415,7 @@ def op_tok(op, n):
         return f"h1 {sref} {coef_tok(op['mu'])} {coef_tok(op['omega'])} {dim} {ch} {op['data']}"
     if k in ("sb", "tvd"):
         ell = op["ell"] if op.get("ell") is not None else 2 * op["mu"]
-        return f"sb {sref} {coef_tok(ell)} {coef_tok(op['omega'])} 2 {op['iters']} {op['data']}"
+        return f"sb {sref} {coef_tok(ell)} {coef_tok(op['omega'])} 2 {op['iters']} {op['data']} tvw {coef_tok(op['mu'])}"
     if k == "an":
         return f"an {op['i']} {op['n']} " + " ".join(str(1000 * n + t) for t in range(op["n"]))
     if k == "di":
@@ -469,7 +471,7 @@ def arr_tok(a):
 def model_line(seq):
     """objects, the coefficient arrays (ENV) and the data arrays the sequence uses (DATA, re-numbered), the operations"""
     ops = [o for o in seq if in_model(o)]
-    used = sorted({o["data"] for o in ops if "data" in o and o["op"] in ("jc", "mc", "h1")})
+    used = sorted({o["data"] for o in ops if "data" in o and o["op"] in ("jc", "mc", "h1", "sb", "tvd")})
     remap = {k: n for n, k in enumerate(used)}
     toks = []
     for n, o in enumerate(ops):
@@ -485,6 +487,8 @@ def op_tok_data(o, o2, n):
     t = op_tok(o, n).split()
     if o["op"] in ("jc", "mc", "h1"):
         t[-1] = str(o2["data"])
+    elif o["op"] in ("sb", "tvd"):
+        t[t.index("tvw") - 1] = str(o2["data"])
     return " ".join(t)
 
 
@@ -529,6 +533,12 @@ GROUPS = {
         dict(op="h1", solver=["m", 1], mu="a2", omega="a0", data=0),
         dict(op="sb", solver=["m", 1], mu=0.25, omega="a1", ell="a2", iters=2, data=1),
     ],
+    "jacobi-tolerance": [  # the tolerance branch of Jacobi.__call__ (stops when the relative increment is below tol, returns the previous iterate)
+        dict(op="jc", i=3, h=1.0, data=0),
+        dict(op="jc", i=3, h=1.0, data=2),
+        dict(op="ju", i=3, diff=4.0),
+        dict(op="h1", solver=["j", 3], mu=0.25, omega=1.0, data=1),
+    ],
     "dyadic-arithmetic": [  # every diagonal is a power of two: the float results equal the model's rationals exactly
         dict(op="jc", i=2, h=1.0, data=0, exact=True),
         dict(op="mc", i=2, data=0, exact=True),
@@ -559,7 +569,7 @@ def slow(op):
 
 
 def sequences(ctx):
-    """quick: all sequences of length <= 2 over the whole alphabet, a seeded sample of 1500 triples without split-Bregman calls,
+    """quick: all sequences of length <= 2 over the whole alphabet, a seeded sample of 500 triples without split-Bregman calls,
     all sequences of length <= 3 inside every group of operations that share an object.
     thorough: all of length <= 3 over the whole alphabet without split-Bregman calls plus 2500 sampled triples with one such
     (numba-compiling) call, all of
@@ -589,7 +599,7 @@ def sequences(ctx):
             emit(seq)
     else:
         fast = [o for o in alphabet if not slow(o)]
-        for _ in range(1500):
+        for _ in range(500):
             emit([ctx.rng.choice(fast) for _ in range(3)])
     for name, g in GROUPS.items():
         for k in range(3, ctx.pick(3, 4) + 1):
@@ -789,7 +799,7 @@ def _run(ctx, d, zyg):
     metavals = []
     metatraces = []
     for si2, (seq, flags, res) in enumerate(zip(seqs, impl_eq, results)):
-        if any(in_model(o) for o in seq) and (len(seq) <= 2 or si2 % ctx.pick(1, 3) == 0):
+        if any(in_model(o) for o in seq) and (len(seq) <= 2 or si2 % 3 == 0):
             lines.append(model_line(seq))
             meta.append((seq, [f for o, f in zip(seq, flags) if in_model(o)], [r for o, r in zip(seq, res) if in_model(o)]))
             metavals.append([v for o, v in zip(seq, values[si2]) if in_model(o)])
@@ -869,7 +879,7 @@ def _run(ctx, d, zyg):
                                  "first_trace_difference": trace_bad})
         ctx.log(f"correspondence stateful-sequences: {ndiff} disagreements, e.g. {json.dumps(first[0])[:300]} impl={first[1]} model={first[2][:200]}")
 
-    ctx.cov["rule"] = ("sequences: quick = all of length <= 2 over the 34-operation alphabet + 1500 sampled triples + all of length <= 3 inside each group; thorough = all of "
+    ctx.cov["rule"] = ("sequences: quick = all of length <= 2 over the 38-operation alphabet + 500 sampled triples + all of length <= 3 inside each group; thorough = all of "
                        "length <= 3 over the alphabet without split-Bregman calls + 2500 sampled triples with one such call + all of length <= 4 inside each "
                        "group sharing an object (default H1 solver, default split-Bregman solver, one Jacobi object, MG objects, Anderson objects); "
                        "both tiers: six distance objects (Newton/Bregman x direct-full/direct-pressure/amg-pressure) on 2 (quick) / 3 (thorough) successive pairs; EVERY call of every sequence is compared with "
